@@ -87,9 +87,14 @@ func genTravGeneral(t *rapid.T, bias string) TravSc {
 	usedAddr := map[string]bool{}
 	for i := 0; i < na; i++ {
 		a := TAddr{Port: rapid.SampledFrom([]int{1, 2, 6881}).Draw(t, "a.port")}
-		if rapid.IntRange(0, 4).Draw(t, "a.v6") == 0 {
+		if fam := rapid.IntRange(0, 5).Draw(t, "a.v6"); fam == 0 {
 			ip := make([]byte, 16)
 			ip[0], ip[1], ip[15] = 0x20, 0x01, byte(rapid.IntRange(1, 40).Draw(t, "a.host6"))
+			a.IP = ip
+		} else if fam == 1 {
+			// an IPv4 address in its 16-byte (v4-mapped) form, as nodes6 entries and dual-stack sockets report it
+			ip := make([]byte, 16)
+			ip[10], ip[11], ip[12], ip[13], ip[14], ip[15] = 0xff, 0xff, 10, 0, byte(rapid.IntRange(0, 1).Draw(t, "a.net")), byte(rapid.IntRange(1, 40).Draw(t, "a.host"))
 			a.IP = ip
 		} else {
 			a.IP = kit.Hex{10, 0, byte(rapid.IntRange(0, 1).Draw(t, "a.net")), byte(rapid.IntRange(1, 40).Draw(t, "a.host"))}
@@ -194,7 +199,11 @@ func genTravTruthful(t *rapid.T) TravSc {
 		}
 		seenID[id] = true
 		ai := len(sc.Addrs)
-		sc.Addrs = append(sc.Addrs, TAddr{IP: kit.Hex{10, 1, byte(ai >> 8), byte(ai)}, Port: 1 + ai%3, Behaviour: "answer", RespID: id[:], Data: "string"})
+		ip := kit.Hex{10, 1, byte(ai >> 8), byte(ai)}
+		if ai%4 == 3 { // every fourth node is known by the 16-byte form of its IPv4 address
+			ip = kit.Hex{0, 0, 0, 0, 0, 0, 0, 0, 0, 0, 0xff, 0xff, 10, 1, byte(ai >> 8), byte(ai)}
+		}
+		sc.Addrs = append(sc.Addrs, TAddr{IP: ip, Port: 1 + ai%3, Behaviour: "answer", RespID: id[:], Data: "string"})
 		sc.Listings = append(sc.Listings, TListing{Addr: ai, ID: id[:]})
 	}
 	order := make([]int, len(sc.Listings))
